@@ -826,6 +826,16 @@ pub fn c06_cases(c: &Corpus, quick: bool) -> Vec<IoRun> {
         p.push(po(op));
         out.push(IoRun { pool: p, ..Default::default() });
     }
+    // every operator form on (identity-ish, generator-ish, generic) operand pairs, with a zero, a small and a large scalar
+    for k in 0u8..24 {
+        for (i, j) in [(0usize, 0usize), (0, 2), (2, 0), (1, 2), (2, 2)] {
+            for h in ["00", "05", "ffffffffffffffffffffffffffffffffffffffffffffffffffffffffffffff0f"] {
+                let mut p = base.clone();
+                p.push(po(EOp::OperatorForm(k, i, j, h.into())));
+                out.push(IoRun { pool: p, ..Default::default() });
+            }
+        }
+    }
     // long batches (block-wise implementations of Montgomery's trick): lengths around multiples of 64, mixed Z
     for l in [63usize, 64, 65, 66, 128, 129, 130, 200] {
         let idxs: Vec<usize> = (0..l).map(|i| i % 3).collect();
